@@ -1,5 +1,214 @@
-import D2V.Model.Quote
-/-! C05 — Strings survive quoting (placeholder while the proofs are being written). -/
+import D2V.Proofs.QuoteRound
+/-!
+  C05 — Strings survive quoting.
+
+  For a string `s` (valid UTF-8, modelled as `List Char`):
+    key clause    `KeyRT s`     ParseKey (Format (KeyPath [RawString s true])) is exactly one segment whose
+                                string is `s`, and the whole text is consumed;
+    value clause  `ValueRT s`   ParseValue (Format (RawString s false)) is a scalar whose string is `s`, the whole
+                                text is consumed, and the scalar is neither a null nor a suspension, and a boolean
+                                only when `s` is spelled `true` / `false`.
+
+  The model reads its tables and guards from `D2V.Gen.Quote`, which the translator regenerates from the tree
+  under test, so the theorems are re-checked against what the code says now.
+
+  * `C05_key_roundtrip_partial`, `C05_value_roundtrip_partial` hold for every string outside an explicit,
+    decidable hazard set (strings that match `null` / `true` / `false` / `suspend` / `unsuspend` or a reserved
+    keyword only case-insensitively), whatever the tree does with those.
+  * `C05_key_roundtrip`, `C05_value_roundtrip` are the full statements.  Their only hypothesis is a closed
+    Boolean computed from the regenerated tables (`keyFixApplied`, `valueFixApplied`: RawString quotes the
+    case variants, the printer lower-cases keywords in keys only, an unquoted null key keeps its spelling);
+    the driver evaluates both on every run and reports `fix-missing-*` while they are false.
+  * `C05_cx_*` are the counterexamples on the tree where those Booleans are false (pinned snapshot).
+-/
 namespace D2V.Quote
-theorem C05_placeholder : rawString [] true = Gen.Quote.rawEmpty := rfl
+open D2V.Gen.Quote
+
+/-- key clause of C05 for the string `s` -/
+def KeyRT (s : Str) : Prop := ∃ k, parseKey (fmtKey s) = .ok [⟨k, s⟩] []
+
+/-- value clause of C05 for the string `s`; `isNum` stands for `big.Rat.SetString` succeeding -/
+def ValueRT (isNum : Str → Bool) (s : Str) : Prop :=
+  ∃ k, parseValue isNum (fmtValue s) = .ok k s [] ∧ KeepsString k s
+
+/-- strings that match `null` or a reserved keyword only case-insensitively -/
+def hazardKey (s : Str) : Bool := (equalFold s "null" && s != "null".toList) || kwCase s
+
+/-- strings that match one of the parser's fold words or a reserved keyword only case-insensitively -/
+def hazardValue (s : Str) : Bool := foldWords.any (fun w => equalFold s w && s != w.toList) || kwCase s
+
+/-! ### from one segment to ParseKey -/
+
+theorem keyLook_go {text : Str} (h : GoodHead text) : keyLook text = .go := by
+  obtain ⟨c, X, rfl, h1, h2, h3⟩ := h
+  simp [keyLook, h1, h2, h3]
+
+theorem parseKey_single {text s : Str} {k : Quoting} (hps : parseString true text = .seg k s [])
+    (hat : k = .unq → s.head? ≠ some '@') (hgood : GoodHead text) (hlen : utf8LenStr s ≤ maxKeyLen) :
+    parseKey text = .ok [⟨k, s⟩] [] := by
+  unfold parseKey parseKeyLoop
+  rw [keyLook_go hgood]
+  simp only [hps]
+  have hno : (k == .unq && s.head? == some '@') = false := by
+    cases hk : (k == Quoting.unq) with
+    | false => simp
+    | true =>
+      have := hat (by simpa using hk)
+      simp [this]
+  simp only [hno, Bool.false_eq_true, if_false, afterSeg, List.nil_append]
+  unfold finishKey
+  have : ¬ (utf8LenStr s > maxKeyLen) := by omega
+  simp [this]
+
+theorem rawString_key_unq {s : Str} (h : rawString s true = .unq) :
+    (rawKeyQuotesKeywordCase && kwCase s) = false := by
+  have := rawString_key s
+  rw [h] at this
+  cases this with
+  | unq _ _ _ hf => exact hf
+
+theorem rawString_value_unq {s : Str} (h : rawString s false = .unq) : rawValueGuard s = false := by
+  have := rawString_value s
+  rw [h] at this
+  cases this with
+  | unq _ hg _ => exact hg
+
+/-! ### key clause -/
+
+theorem key_core {s : Str} (hlen : utf8LenStr s ≤ maxKeyLen)
+    (hnull : equalFold s "null" = true → s = "null".toList ∨ uqFoldLiteral = none)
+    (hkw : rawString s true = .unq → kwCase s = false) : KeyRT s := by
+  obtain ⟨k, hps, hat, hgood⟩ := parseString_fmtKey (rest := []) (Or.inl rfl) hnull hkw
+  rw [List.append_nil] at hps
+  exact ⟨k, parseKey_single hps hat hgood hlen⟩
+
+/-- C05, key clause, for every string outside the hazard set — on any tree whose tables pass the table lemmas. -/
+theorem C05_key_roundtrip_partial (s : Str) (hlen : utf8LenStr s ≤ maxKeyLen) (hz : hazardKey s = false) :
+    KeyRT s := by
+  unfold hazardKey at hz
+  simp only [Bool.or_eq_false_iff, Bool.and_eq_false_iff, bne_eq_false_iff_eq] at hz
+  refine key_core hlen ?_ (fun _ => hz.2)
+  intro hf
+  rcases hz.1 with h | h
+  · rw [hf] at h; cases h
+  · exact Or.inl h
+
+/-- C05, key clause, full statement: every string of at most 518 bytes (the limit `ParseKey` enforces). -/
+theorem C05_key_roundtrip (hfix : keyFixApplied = true) (s : Str) (hlen : utf8LenStr s ≤ maxKeyLen) : KeyRT s := by
+  unfold keyFixApplied at hfix
+  simp only [Bool.and_eq_true, Option.isNone_iff_eq_none] at hfix
+  refine key_core hlen (fun _ => Or.inr hfix.2) ?_
+  intro hu
+  have := rawString_key_unq hu
+  simpa [hfix.1] using this
+
+/-! ### value clause -/
+
+theorem guard_words : rawValueGuard "null".toList = true ∧ rawValueGuard "suspend".toList = true ∧
+    rawValueGuard "unsuspend".toList = true := by decide
+
+theorem foldWords_mem : "null" ∈ foldWords ∧ "suspend" ∈ foldWords ∧ "unsuspend" ∈ foldWords := by decide
+
+/-- C05, value clause, for every string outside the hazard set. -/
+theorem C05_value_roundtrip_partial (isNum : Str → Bool) (s : Str) (hz : hazardValue s = false) :
+    ValueRT isNum s := by
+  unfold hazardValue at hz
+  simp only [Bool.or_eq_false_iff] at hz
+  have hfold : ∀ w ∈ foldWords, equalFold s w = true → s = w.toList := by
+    intro w hw hf
+    have := List.any_eq_false.mp hz.1 w hw
+    simpa [hf] using this
+  have hkc := hz.2
+  refine parseValue_fmtValue isNum (fun _ => hfold) ?_ ?_
+  · intro hu
+    have hg := rawString_value_unq hu
+    refine ⟨?_, ?_, ?_⟩
+    · cases h : equalFold s "null" with
+      | false => rfl
+      | true => rw [hfold _ foldWords_mem.1 h, guard_words.1] at hg; cases hg
+    · cases h : equalFold s "suspend" with
+      | false => rfl
+      | true => rw [hfold _ foldWords_mem.2.1 h, guard_words.2.1] at hg; cases hg
+    · cases h : equalFold s "unsuspend" with
+      | false => rfl
+      | true => rw [hfold _ foldWords_mem.2.2 h, guard_words.2.2] at hg; cases hg
+  · intro _ _ hc
+    unfold kwCase at hkc
+    simp only [hc, Bool.true_and, bne_eq_false_iff_eq] at hkc
+    exact hkc
+
+theorem guard_fold {s : Str} {w : String} (hg : rawValueGuard s = false) (hw : rawValueFoldWords.contains w = true) :
+    equalFold s w = false := by
+  unfold rawValueGuard at hg
+  simp only [Bool.or_eq_false_iff] at hg
+  have := List.any_eq_false.mp hg.1.1.2 w (by simpa using hw)
+  simpa using this
+
+theorem guard_foldNe {s : Str} {w : String} (hg : rawValueGuard s = false)
+    (hw : (rawValueFoldWords.contains w || rawValueFoldNeWords.contains w) = true) (hf : equalFold s w = true) :
+    s = w.toList := by
+  cases h1 : rawValueFoldWords.contains w with
+  | true => rw [guard_fold hg h1] at hf; cases hf
+  | false =>
+    simp only [h1, Bool.false_or] at hw
+    unfold rawValueGuard at hg
+    simp only [Bool.or_eq_false_iff] at hg
+    have := List.any_eq_false.mp hg.1.2 w (by simpa using hw)
+    simpa [hf] using this
+
+/-- C05, value clause, full statement: every string. -/
+theorem C05_value_roundtrip (hfix : valueFixApplied = true) (isNum : Str → Bool) (s : Str) : ValueRT isNum s := by
+  unfold valueFixApplied at hfix
+  simp only [Bool.and_eq_true, Bool.not_eq_true', List.all_cons, List.all_nil, Bool.and_true] at hfix
+  obtain ⟨⟨hlow, hn, hs, hu⟩, ht, hf⟩ := hfix
+  refine parseValue_fmtValue isNum ?_ ?_ ?_
+  · intro hq w hw hfw
+    have hg := rawString_value_unq hq
+    simp only [foldWords, List.mem_cons, List.not_mem_nil, or_false] at hw
+    rcases hw with rfl | rfl | rfl | rfl | rfl
+    · rw [guard_fold hg hn] at hfw; cases hfw
+    · rw [guard_fold hg hs] at hfw; cases hfw
+    · rw [guard_fold hg hu] at hfw; cases hfw
+    · exact guard_foldNe hg ht hfw
+    · exact guard_foldNe hg hf hfw
+  · intro hq
+    have hg := rawString_value_unq hq
+    exact ⟨guard_fold hg hn, guard_fold hg hs, guard_fold hg hu⟩
+  · intro _ hl
+    rw [hlow] at hl; cases hl
+
+/-! ### the hypotheses are satisfiable, the statements are not vacuous -/
+
+example : KeyRT "a-b c".toList := C05_key_roundtrip_partial _ (by decide) (by decide)
+example : KeyRT "x.y \"z\"".toList := C05_key_roundtrip_partial _ (by decide) (by decide)
+example : ValueRT isNumeral "1e3".toList := C05_value_roundtrip_partial _ _ (by decide)
+example : ValueRT isNumeral "a $b \"c\"".toList := C05_value_roundtrip_partial _ _ (by decide)
+example : hazardKey "NULL".toList = true ∧ hazardKey "Label".toList = true ∧ hazardValue "TRUE".toList = true := by decide
+
+/-! ### counterexamples on the tree without the fix (false hypotheses on a fixed tree) -/
+
+/-- `RawString("NULL", true)` prints `'null'`: the key reads back as `null` -/
+theorem C05_cx_key_NULL : uqFoldLiteral.isSome = true →
+    parseKey (fmtKey "NULL".toList) = .ok [⟨.sq, "null".toList⟩] [] := by decide
+
+/-- `RawString("Label", true)` prints `label` -/
+theorem C05_cx_key_Label : rawKeyQuotesKeywordCase = false →
+    parseKey (fmtKey "Label".toList) = .ok [⟨.unq, "label".toList⟩] [] := by decide
+
+/-- `RawString("TRUE", false)` prints `TRUE`, which is the boolean true -/
+theorem C05_cx_value_TRUE : (rawValueFoldWords.contains "true" || rawValueFoldNeWords.contains "true") = false →
+    parseValue isNumeral (fmtValue "TRUE".toList) = .ok (.boolean true) "true".toList [] := by decide
+
+/-- `RawString("Suspend", false)` prints `Suspend`, which is a suspension marker -/
+theorem C05_cx_value_Suspend : rawValueFoldWords.contains "suspend" = false →
+    parseValue isNumeral (fmtValue "Suspend".toList) = .ok (.suspension true) [] [] := by decide
+
+/-- `RawString("NULL", false)` prints `'null'` -/
+theorem C05_cx_value_NULL : rawValueFoldWords.contains "null" = false →
+    parseValue isNumeral (fmtValue "NULL".toList) = .ok .sq "null".toList [] := by decide
+
+/-- `RawString("Label", false)` prints `label` -/
+theorem C05_cx_value_Label : lowerGuard false false = true →
+    parseValue isNumeral (fmtValue "Label".toList) = .ok .unq "label".toList [] := by decide
+
 end D2V.Quote
